@@ -41,6 +41,9 @@ CHECKS = {
  "C18": ("exploration", "model-based property testing: generated cursor scripts vs sorted-vector + gap-index model",
          "tableops", "Generated cursor scripts (seek with every bound kind, peek/next/prev, inserts in both directions with fitting/unordered/equal keys, long buffered runs, removals, close/drop, commit/reopen, read-only cursors) compared step by step with a sorted vector and a gap index, and by full scans after every close.",
          "Two key families (u64, &str) with byte values.", "DESIGN.md 4/C18"),
+ "C19": ("translation_validation", "differential testing against redb 3.0.0 (cargo cache) over generated histories in both directions, incl. crash images; oracle = reference model read through the other version",
+         "compat", "Generated histories written by one version and read (and, old->new, extended) by the other over one shared buffer, default geometry; identical tables, contents, persistent savepoints, integrity verdicts; two known findings listed.",
+         "Only one old release (3.0.0) is available offline; page size 4096 / default regions only.", "DESIGN.md 4/C19"),
  "C01": ("fault_enumeration", "crash-state enumeration over recorded histories: proptest-generated histories on a recording backend, enumerated/sampled subsets and tears of unsynced writes at every storage operation, nested crashes in recovery; oracle = reference model's commit points",
          "hist+crashsim",
          "Generated histories x crash instants x kept/dropped/torn subsets of the writes since the last sync (all 2^W subsets for small W) x a second crash inside recovery; every recovered image must open and equal exactly one commit point in [last acknowledged durable, last requested]. Enumeration is complete only for the small-W instants; everything else is a seeded sample.",
@@ -107,6 +110,7 @@ def main():
             {"name": "decoder", "path": "harness/src/decoder.rs", "serves_properties": ["C06", "C10", "C12"], "kind_free_text": "independent reader of the v3 file format (header, slots, B-tree pages, catalog records, multimap collections, page lists, savepoint records, saved allocator state) with its own XXH3"},
             {"name": "alloc", "path": "harness/src/c14.rs", "serves_properties": ["C14"], "kind_free_text": "bitset model of buddy allocator / page manager regions"},
             {"name": "types", "path": "harness/src/c15.rs", "serves_properties": ["C15"], "kind_free_text": "typed value generators and Ord oracle for 33 key types"},
+            {"name": "compat", "path": "harness/src/c19.rs", "serves_properties": ["C19"], "kind_free_text": "two redb versions (path dependency and redb 3.0.0 from the cargo cache) over one shared in-memory buffer"},
             {"name": "hist", "path": "harness/src/hist.rs", "serves_properties": ["C01", "C02", "C05", "C07", "C08", "C11", "C13", "C17", "C20"], "kind_free_text": "history state machine (transactions, savepoints, readers, catalog, reopen, compact) with a reference model of commit points"},
             {"name": "crashsim", "path": "harness/src/crash.rs", "serves_properties": ["C01", "C07", "C08", "C11", "C13", "C20"], "kind_free_text": "recording / fault-injecting / contract-monitoring StorageBackend and crash-state enumerator"},
         ],
